@@ -472,8 +472,19 @@ def handle(job: dict) -> dict:
     elif "treehash" in want:
         res["tree"] = read_tree(outdir, "hash")
     # ---- sandbox
-    if job.get("sandbox") and pkgdir is not None and pkgdir.exists():
-        acts = job["sandbox"]
+    acts = list(job.get("sandbox") or [])
+    if job.get("plan") and pkgdir is not None and pkgdir.exists():
+        try:
+            from vf import plans
+            man = res.get("manifest") or build_manifest()
+            if man is None:
+                res["plan_error"] = "no manifest"
+            else:
+                acts = acts + plans.PLANS[job["plan"]["fn"]](job["doc"], man, job["plan"].get("args") or {})
+        except Exception as ex:
+            res["plan_error"] = f"{type(ex).__name__}: {ex}\n{traceback.format_exc()[-1200:]}"
+        res["actions"] = acts
+    if acts and pkgdir is not None and pkgdir.exists():
         res["sandbox"] = SANDBOX.call({"root": str(pkgdir.parent), "pkg": pkgdir.name, "actions": acts}, timeout=float(job.get("sandbox_timeout", 90)), fresh=bool(job.get("fresh_sandbox")))
     if not job.get("keep"):
         if not job.get("outdir"):
